@@ -16,6 +16,7 @@ ap.add_argument("--trace"); ap.add_argument("--native"); ap.add_argument("--obje
 ap.add_argument("--ll2c-flag", action="append", default=[], help="extra ll2c flag, e.g. --ll2c-flag=--byte-loops"); ap.add_argument("--unwindset", action="append", default=[]); ap.add_argument("--gen-native", help="run the gcc-compiled GENERATED C with these values")
 ap.add_argument("--extra-models", default="", help="comma list of further model files under models/ (job key extra_models)")
 ap.add_argument("--drop-functions", default="", help="comma list of IR functions whose bodies are deleted before DCE (job key drop_functions)")
+ap.add_argument("--cbmc-flag", action="append", default=[], help="further cbmc option words (job key cbmc_flags), e.g. --cbmc-flag=--max-field-sensitivity-array-size --cbmc-flag=512")
 ap.add_argument("--pregen", default="", help="comma list of generator sources relative to /verif (job key pregen)")
 ap.add_argument("--pregen-units", default="", help="units (or a specs list name) the generators are linked with (job key pregen_units)")
 ap.add_argument("--verbosity9", action="store_true", help="debug recipe: run cbmc --verbosity 9 and print 'Unwinding loop' counts per loop")
@@ -25,6 +26,7 @@ job = dict(name="try-" + os.path.splitext(a.harness)[0], harness=a.harness, entr
            checks="mem" if a.mem else "none", object_bits=a.object_bits, defines=a.define, unwindset=a.unwindset, ll2c_flags=a.ll2c_flag)
 if a.extra_models: job["extra_models"] = [m for m in a.extra_models.split(",") if m]
 if a.drop_functions: job["drop_functions"] = [m for m in a.drop_functions.split(",") if m]
+if a.cbmc_flag: job["cbmc_flags"] = list(a.cbmc_flag)
 if a.pregen: job["pregen"] = [m for m in a.pregen.split(",") if m]
 if a.pregen_units: job["pregen_units"] = getattr(specs, a.pregen_units) if hasattr(specs, a.pregen_units) else [u for u in a.pregen_units.split(",") if u]
 params = {int(p.split("=")[0]): int(p.split("=")[1]) for p in a.param}
